@@ -465,3 +465,152 @@ Proof.
   - apply Z.div_pos; lia.
   - apply Z.div_lt_upper_bound; lia.
 Qed.
+
+(* ------------------------------------------------------------------ *)
+(* The reader as a stateful object                                     *)
+(* ------------------------------------------------------------------ *)
+
+Lemma open_bin_open_at online nbytes nc fts fs :
+  open_bin online nbytes nc fts fs = fst (open_at online nbytes nbytes nc fts fs).
+Proof.
+  unfold open_bin, open_at.
+  destruct (reader_ns online nbytes nc fts fs); try reflexivity.
+  destruct (reader_ns online nbytes nc _ fs); reflexivity.
+Qed.
+
+(* OnlineReader.open whatever size the constructor cached: floor of the CURRENT size *)
+Lemma open_at_online cached cur nc fts fs :
+  1 <= nc < 2 ^ 53 -> 1 <= cur < 2 ^ 53 ->
+  let k := cur / (2 * nc) in
+  let rw := negb (nc * k * 2 =? cached) in
+  let fts' := if rw then Some (rl k fs) else fts in
+  open_at true cached cur nc fts fs = (Opened k nc fts' rw, fts').
+Proof.
+  intros Hnc Hnb k rw fts'.
+  destruct (floor_frames cur nc ltac:(lia) ltac:(lia)) as [[Hlo Hhi] Hk0]. fold k in Hlo, Hhi, Hk0.
+  unfold open_at, reader_ns. rewrite (ns_online_floor cur nc ltac:(lia) Hnc). fold k. fold rw.
+  replace (memmap_ok cur k nc) with true; [|symmetry; apply memmap_ok_spec; nia].
+  subst fts'. destruct rw; reflexivity.
+Qed.
+
+(* Reader.open (offline): the exact truth.  The comparison uses the size cached by the
+   constructor; when it disagrees with the meta claim the duration comes from a fresh stat and
+   the floor of the current size is exposed; when it agrees, the claim ns0 is used as it is and
+   np.memmap checks it against the current file. *)
+Lemma open_at_offline cached cur nc t fs ns0 :
+  1 <= nc -> 1 <= cur -> cur / (2 * nc) <= 2 ^ 50 -> fs_ok fs ->
+  ns_meta (Some t) fs = NsOk ns0 ->
+  let k := cur / (2 * nc) in
+  open_at false cached cur nc (Some t) fs =
+    if negb (nc * ns0 * 2 =? cached)
+    then (Opened k nc (Some (rl k fs)) true, Some (rl k fs))
+    else (if memmap_ok cur ns0 nc then Opened ns0 nc (Some t) false else MmapError, Some t).
+Proof.
+  intros Hnc Hnb Hk Hfs Hns0 k.
+  destruct (floor_frames cur nc Hnc ltac:(lia)) as [[Hlo Hhi] Hk0]. fold k in Hlo, Hhi, Hk0.
+  unfold open_at, reader_ns. rewrite Hns0.
+  destruct (negb (nc * ns0 * 2 =? cached)) eqn:Erw.
+  - unfold rl. fold k. rewrite (ns_meta_round_trip k fs ltac:(lia) Hfs).
+    replace (memmap_ok cur k nc) with true; [reflexivity|].
+    symmetry. apply memmap_ok_spec. nia.
+  - rewrite Hns0. reflexivity.
+Qed.
+
+(* consequences of the cached comparison for the offline Reader, as concrete laws *)
+Lemma open_at_offline_stale_grow cached cur nc t fs ns0 :
+  1 <= nc -> 0 <= ns0 -> ns_meta (Some t) fs = NsOk ns0 ->
+  nc * ns0 * 2 = cached -> 1 <= cached <= cur ->
+  open_at false cached cur nc (Some t) fs = (Opened ns0 nc (Some t) false, Some t).
+Proof.
+  intros Hnc Hns Hns0 Hc Hcur. unfold open_at, reader_ns. rewrite Hns0.
+  replace (nc * ns0 * 2 =? cached) with true by (symmetry; apply Z.eqb_eq; exact Hc).
+  cbn [negb]. rewrite Hns0.
+  replace (memmap_ok cur ns0 nc) with true; [reflexivity|].
+  symmetry. apply memmap_ok_spec. nia.
+Qed.
+
+Lemma open_at_offline_stale_cut cached cur nc t fs ns0 :
+  1 <= nc -> ns_meta (Some t) fs = NsOk ns0 ->
+  nc * ns0 * 2 = cached -> cur < cached ->
+  open_at false cached cur nc (Some t) fs = (MmapError, Some t).
+Proof.
+  intros Hnc Hns0 Hc Hcur. unfold open_at, reader_ns. rewrite Hns0.
+  replace (nc * ns0 * 2 =? cached) with true by (symmetry; apply Z.eqb_eq; exact Hc).
+  cbn [negb]. rewrite Hns0.
+  replace (memmap_ok cur ns0 nc) with false; [reflexivity|].
+  symmetry. apply not_true_iff_false. rewrite memmap_ok_spec. nia.
+Qed.
+
+(* --- histories on an OnlineReader --- *)
+Definition op_ok (o : op) : Prop :=
+  match o with OpResize n => 1 <= n < 2 ^ 53 | _ => True end.
+
+(* what must hold of every snapshot of the history of an OnlineReader *)
+Definition online_snap_ok (nc : Z) (s : (Z * reader) * option outcome) : Prop :=
+  let '((cur, r), out) := s in
+  let k := cur / (2 * nc) in
+  live_ns cur r = NsOk k /\
+  (forall o, out = Some o ->
+     r_mapped r = Some k /\ exists fts' rw, o = Opened k nc fts' rw /\ r_fts r = fts').
+
+Definition online_inv (nc : Z) (w : Z * reader) : Prop :=
+  r_online (snd w) = true /\ r_nc (snd w) = nc /\ 1 <= fst w < 2 ^ 53.
+
+Lemma live_ns_online nc cur r : 1 <= nc < 2 ^ 53 -> online_inv nc (cur, r) ->
+  live_ns cur r = NsOk (cur / (2 * nc)).
+Proof.
+  intros Hnc [Ho [Hn Hc]]. cbn [fst snd] in *. unfold live_ns, reader_ns. rewrite Ho, Hn.
+  apply ns_online_floor; lia.
+Qed.
+
+Lemma do_open_online nc cur r : 1 <= nc < 2 ^ 53 -> online_inv nc (cur, r) ->
+  let '(r', out) := do_open cur r in
+  online_inv nc (cur, r') /\ online_snap_ok nc ((cur, r'), Some out).
+Proof.
+  intros Hnc [Ho [Hn Hc]]. cbn [fst snd] in *. unfold do_open.
+  rewrite Ho, Hn. rewrite (open_at_online (r_cached r) cur nc (r_fts r) (r_fs r) Hnc Hc).
+  split.
+  - repeat split; cbn; auto; lia.
+  - unfold online_snap_ok. split.
+    + apply live_ns_online; [exact Hnc|]. repeat split; cbn; auto; lia.
+    + intros o Eo. injection Eo as <-. cbn. split; [reflexivity|]. eauto.
+Qed.
+
+Lemma step_online nc w o : 1 <= nc < 2 ^ 53 -> online_inv nc w -> op_ok o ->
+  online_inv nc (fst (step w o)) /\ online_snap_ok nc (step w o).
+Proof.
+  intros Hnc Hinv Hop. destruct w as [cur r]. destruct o as [n| |]; cbn [step].
+  - assert (Hinv' : online_inv nc (n, r)).
+    { destruct Hinv as [Ho [Hn _]]. repeat split; cbn in *; auto; lia. }
+    split; [exact Hinv'|]. split; [apply live_ns_online; assumption|]. intros o E. discriminate.
+  - pose proof (do_open_online nc cur r Hnc Hinv) as H. destruct (do_open cur r) as [r' out]. exact H.
+  - destruct (r_mapped r) eqn:Em.
+    + split; [exact Hinv|]. split; [apply live_ns_online; assumption|]. intros o E. discriminate.
+    + pose proof (do_open_online nc cur r Hnc Hinv) as H. destruct (do_open cur r) as [r' out]. exact H.
+Qed.
+
+Lemma exec_online nc ops : 1 <= nc < 2 ^ 53 -> forall w, online_inv nc w -> Forall op_ok ops ->
+  Forall (online_snap_ok nc) (exec w ops).
+Proof.
+  intros Hnc. induction ops as [|o tl IH]; intros w Hinv Hops; cbn [exec]; [constructor|].
+  inversion Hops as [|? ? Ho Htl]; subst.
+  pose proof (step_online nc w o Hnc Hinv Ho) as [Hinv' Hsnap].
+  destruct (step w o) as [w' out]. constructor; [exact Hsnap|]. apply IH; assumption.
+Qed.
+
+(* every history of appends / cuts / opens / re-opens / context-manager entries on an OnlineReader *)
+Lemma history_online nc fs fts cur0 do_op ops :
+  1 <= nc < 2 ^ 53 -> 1 <= cur0 < 2 ^ 53 -> Forall op_ok ops ->
+  Forall (online_snap_ok nc) (history true nc fs fts cur0 do_op ops).
+Proof.
+  intros Hnc Hc Hops. unfold history, construct.
+  set (r0 := mkReader true nc fs cur0 fts None).
+  assert (Hinv0 : online_inv nc (cur0, r0)) by (repeat split; cbn; auto; lia).
+  destruct do_op.
+  - pose proof (step_online nc (cur0, r0) OpOpen Hnc Hinv0 I) as [Hinv' Hsnap].
+    destruct (step (cur0, r0) OpOpen) as [w' out]. constructor; [exact Hsnap|].
+    apply exec_online; assumption.
+  - constructor.
+    + split; [apply live_ns_online; assumption|]. intros o E. discriminate.
+    + apply exec_online; assumption.
+Qed.
